@@ -146,14 +146,14 @@ func (s *Service) onFindNode(ctx context.Context, peer p2p.Peer, stream p2p.Stre
 	target := boson.NewAddress(req.Target)
 	skip := []boson.Address{peer.Address}
 
-	var (
-		limitConn  = 1
-		limitKnown = 1
-	)
-	if req.Limit > 2 {
-		limitKnown = int(req.Limit / 2)
-		limitConn = int(req.Limit) - limitKnown
+	if req.Limit < 0 {
+		req.Limit = 0
 	}
+	// split the requested number between connected and known peers; the
+	// connected half gets the odd one, so that limit 1 yields one peer and
+	// limit 0 none.
+	limitKnown := int(req.Limit / 2)
+	limitConn := int(req.Limit) - limitKnown
 
 	addrFunc := func(address boson.Address, u uint8) (stop, jumpToNext bool, err error) {
 		if address.MemberOf(skip) {
